@@ -229,12 +229,24 @@ def run_panic_inventory(ctx, rid, entries, text, ctx_sensitive=False, kinds=None
     # into a helper keeps its review - one moved site per vanished entry of the same kind, in the same crate
     present = {s.key for s in sites}
     vanished = {}
+
+    def site_class(detail):
+        # indexing a String is indexing its str, indexing a Vec is indexing its slice: `fen: String` becoming `s: &str`
+        # moves the site, it does not create one
+        last = detail.rsplit("::", 1)[-1]
+        if last in ("index", "index_mut") and "Index" in detail:
+            if "String" in detail or "str" in detail.replace("std::", ""):
+                return "str::" + last
+            if "Vec<" in detail or "[T]" in detail:
+                return "seq::" + last
+        return detail
+
     for k, r in reviewed.items():
         if k.startswith("_") or k in present:
             continue
         fn_, kind_, detail_ = k.split("|")[0], k.split("|")[1], k.split("|")[2]
         if fn_ in seen or fn_ not in prog.fns:
-            vanished.setdefault((fn_.split("::", 1)[0], kind_, detail_), []).append(k)
+            vanished.setdefault((fn_.split("::", 1)[0], kind_, site_class(detail_)), []).append(k)
     for s in sites:
         if kinds and s.cls not in kinds:
             n_skipped += 1
@@ -254,7 +266,7 @@ def run_panic_inventory(ctx, rid, entries, text, ctx_sensitive=False, kinds=None
             # a reviewed site whose machine-checked precondition no longer holds: the argument that made it safe is gone
             ctx.ob(rid, s.key, False, "reachable panic site whose reviewed guard `%s` no longer holds (%s): %s %s in %s" % (g, r["why"], s.kind, s.detail.rsplit("::", 2)[-1] if s.kind == "call" else s.detail, f["display"]), ctx.where(f, s.line))
             continue
-        pool = vanished.get((s.fn.split("::", 1)[0], s.kind, s.detail), [])
+        pool = vanished.get((s.fn.split("::", 1)[0], s.kind, site_class(s.detail)), [])
         if pool and s.key not in reviewed:
             k_old = pool.pop(0)
             r = reviewed[k_old]
@@ -267,13 +279,15 @@ def run_panic_inventory(ctx, rid, entries, text, ctx_sensitive=False, kinds=None
         is_index_call = s.kind == "call" and ((s.detail.rsplit("::", 1)[-1] in ("index", "index_mut") and ("Index<" in s.detail or "IndexMut<" in s.detail))
                                             or (s.detail.rsplit("::", 1)[-1] in ("split_at", "split_at_mut", "copy_from_slice", "swap") and s.detail.startswith("core::slice::")))
         is_unwrap = s.kind == "call" and s.detail.rsplit("::", 1)[-1] in ("unwrap", "expect", "unwrap_unchecked") and s.detail.startswith(("core::option::Option", "core::result::Result"))
-        if (declared_invariants_undecided is True and (is_index_call or is_unwrap)) or \
+        is_refcell = s.kind == "call" and s.detail.startswith("core::cell::RefCell") and s.detail.rsplit("::", 1)[-1] in ("borrow", "borrow_mut")
+        if (declared_invariants_undecided and is_refcell) or \
+                (declared_invariants_undecided is True and (is_index_call or is_unwrap)) or \
                 (declared_invariants_undecided is True and s.kind == "assert" and s.detail == "bounds") or (declared_invariants_undecided and s.kind == "call" and s.detail.startswith("core::panicking::")) \
                 or (declared_invariants_undecided is True and s.kind == "assert" and s.detail.startswith("overflow:")):
             # an index whose range this analysis cannot bound, or an assertion / unreachable!() the author declared:
             # whether it can fire depends on values; no verdict (reported, not an alarm). Calls of panicking library
             # functions (unwrap, expect, Duration arithmetic, slicing, division) stay violations.
-            ctx.lost(rid, "%s (new %s in %s: cannot be shown unreachable, not assumed reachable)" % (s.key, ("bounds check " + s.info if s.detail == "bounds" else "arithmetic overflow check " + s.info) if s.kind == "assert" else "index into a Vec / slice" if is_index_call else "unwrap / expect of a value the author declares present" if is_unwrap else "assertion / explicit panic", f["display"]))
+            ctx.lost(rid, "%s (new %s in %s: cannot be shown unreachable, not assumed reachable)" % (s.key, ("bounds check " + s.info if s.detail == "bounds" else "arithmetic overflow check " + s.info) if s.kind == "assert" else "index into a Vec / slice" if is_index_call else "unwrap / expect of a value the author declares present" if is_unwrap else "RefCell borrow (a conflicting borrow panics on every call and does not survive the test suite)" if is_refcell else "assertion / explicit panic", f["display"]))
             continue
         ctx.ob(rid, s.key, False,
                "reachable panic site without a guard argument: %s %s %s in %s; reached via %s"
